@@ -89,6 +89,26 @@ def witness_search(tier, seed):
                     got = f"raised {type(e).__name__}"
                 if got != expect:
                     return dict(input=dict(property=prop, value=val, behaviors=str(beh)), detail=f"conversion did '{got}', the policy says '{expect}'")
+    # two offending properties: the exception names the one that comes first *in the source*, whatever the order of the tables
+    for first, second in (("SCROLLS", "COMBOS"), ("COMBOS", "SCROLLS"), ("LABELS", "TICKCOUNTS"), ("JACKET", "ORIGIN"), ("ORIGIN", "JACKET")):
+        s = SSCSimfile.blank()
+        for lst in CV.SM_SIMFILE_INVALID.values():
+            for k in lst:
+                s.pop(k, None)
+        s[first] = "0.000=2.000"
+        s[second] = "0.000=3.000"
+        beh = {pt: B.ERROR for pt in P}
+        beh[P.SSC_VERSION] = B.IGNORE
+        try:
+            ssc_to_sm(s, invalid_property_behaviors=beh)
+            got = "returned"
+        except InvalidPropertyException as e:
+            got = "first" if repr(first) in str(e) else "second" if repr(second) in str(e) else f"other ({e})"
+        except Exception as e:
+            got = f"raised {type(e).__name__}: {e}"
+        if got != "first":
+            return dict(input=dict(properties_in_source_order=[first, second], behaviors="every kind ERROR"),
+                        detail=f"two refused properties: the conversion {'names the ' + got + ' one' if got in ('second',) else got}; the statement asks for the first offending property, {first!r}")
     # supplied templates are left unmodified and share nothing with the result (conversion through one template twice)
     from simfile.sm import SMChart
     tmpl = SMSimfile(string="#TITLE:template;#CREDIT:me;#NOTES:dance-single:t:Easy:1:0,0,0,0,0:0000;")
